@@ -960,6 +960,11 @@ func (r *transformingReader) Read(data []byte) (n int, err error) {
 		var err error
 		if len(data) > offset && r.buffer != nil {
 			n, err = r.buffer.Read(data[offset:])
+			if errors.Is(err, io.EOF) {
+				// The buffer of this message is drained (always the case
+				// for an empty message); that is not the end of the stream.
+				err = nil
+			}
 		}
 		if offset+n > 0 {
 			return offset + n, err
